@@ -602,6 +602,31 @@ def disjoint(repo: Repo, chk: Check) -> None:
                        "extension provides - dispatch_to_dm declines it too, the region gets no guard and runs on every core")
     if n_ == 0:
         chk.observe("C14.disjoint xdma-complement not evaluated: dispatch_to_compute has no declining return under a quantified is_same_kernel test")
+    # .. and it is ONE test: both rules ask the extensions about the same kernel op of the region
+    def _kernel_args(fn_flow) -> set[str]:
+        out_: set[str] = set()
+        for s_ in fn_flow.stmts(ast.Return):
+            if not s_.reachable:
+                continue
+            for fa in s_.facts:
+                if fa.kind != "atom":
+                    continue
+                q_ = norm.qnf(fa.expr)
+                for c_ in ast.walk(fa.expr):
+                    if isinstance(c_, ast.Call) and callee_name(c_) == "is_same_kernel" and c_.args:
+                        a_ = c_.args[0]
+                        # a kernel drawn from a collection is named by the collection
+                        if q_ is not None and isinstance(a_, ast.Name) and a_.id == q_[1]:
+                            a_ = q_[2]
+                        out_.add(ast.unparse(norm.canon(a_)))
+        return out_
+
+    fd, fld = flow_of(repo, chk, RULES, "dispatch_to_dm")
+    ka, kb = _kernel_args(fld), _kernel_args(flc)
+    if ka and kb:
+        chk.result(ka == kb, "C14.disjoint", f"{RULES}:same-kernel", fd.where, f"both rules test the kernel `{sorted(ka)[0][:60]}`",
+                   f"dispatch_to_dm asks the extensions about {sorted(ka)} and dispatch_to_compute about {sorted(kb)}: for a region where the two differ (a fused region whose "
+                   "first kernel is no extension kernel but a later one is) both rules claim the region, it is wrapped in both guards and runs on no core")
     # unconditional True for a copy / generic
     for qual, cls in (("dispatch_to_dm", ("memref.CopyOp", "CopyOp")), ("dispatch_to_compute", ("linalg.GenericOp", "GenericOp"))):
         f, fl = flow_of(repo, chk, RULES, qual)
